@@ -602,10 +602,24 @@ class Assembler:
         lf = spec['lift_loop']
         fp = FnParts(item)
         loops = fp.loops()
-        if lf['k'] >= len(loops):
-            raise ExtractError('lost anchor: loop %d of fn %s (has %d)' % (lf['k'], fnname, len(loops)))
         m = s.match()
-        kw, kopen = loops[lf['k']]
+        is_block = 'block_after' in lf
+        if is_block:
+            # 23b: the `{ .. }` block that follows an anchor (e.g. the then-branch of `if COND`) is lifted the same way; its own
+            # tail expression / `return`s give the function's value, so no tail is appended; a `continue` / `break` that belongs
+            # to an enclosing loop is an unsupported construct
+            _ka, kb_ = fp.find_stmt(lf['block_after'], lf.get('n', 0))
+            kopen = kb_ + 1
+            while kopen < fp.k_body_close and not s.is_p(kopen, '{'):
+                kopen += 1
+            if kopen >= fp.k_body_close:
+                raise ExtractError('lost anchor: no block after `%s` in fn %s' % (lf['block_after'], fnname))
+            kw = kopen
+            lf = dict(lf, k=-1)
+        else:
+            if lf['k'] >= len(loops):
+                raise ExtractError('lost anchor: loop %d of fn %s (has %d)' % (lf['k'], fnname, len(loops)))
+            kw, kopen = loops[lf['k']]
         kclose = m[kopen]
         if lf.get('head'):
             # the loop header must still read as the unit expects (pattern and iterated expression), token for token
@@ -617,10 +631,13 @@ class Assembler:
         def in_nested(q):
             return any(a <= q <= b for a, b in nested)
         tail = lf.get('tail', '()')
+        self.fired.add('23b:block-lifting' if is_block else '23:loop-body-lifting')
         for q in range(kopen + 1, kclose):
             if s.is_id(q, 'break') and not in_nested(q):
                 raise ExtractError('unsupported construct: break inside the lifted loop %d of fn %s' % (lf['k'], fnname))
             if s.is_id(q, 'continue') and not in_nested(q):
+                if is_block:
+                    raise ExtractError('unsupported construct: continue of an enclosing loop inside the lifted block of fn %s' % fnname)
                 ed.replace(s.t[q][1], s.t[q][2], 'return %s' % tail)
             if s.is_id(q, 'self') and lf.get('self_as'):
                 ed.replace(s.t[q][1], s.t[q][2], lf['self_as'])
@@ -637,8 +654,7 @@ class Assembler:
         txt += self.clauses('ensures', ens, '    ', fnname)
         if is_canary:
             txt += ('    ensures\n' if not ens else '') + '        false, // @canary\n'
-        self.fired.add('23:loop-body-lifting')
-        return head + txt + '{' + body + '\n    ' + tail + '\n}'
+        return head + txt + '{' + body + ('' if is_block else '\n    ' + tail) + '\n}'
 
     def mut_refs(self, s, fp, ed, spec, fnname):
         # ghost-journal parameter: `journal_param = true` adds `, verif_journal: &mut VJournal` to the signature, so that the
